@@ -26,6 +26,11 @@ fn tokens() -> Vec<String> {
         "a;b".into(),
         long,
         "é".into(),
+        // long non-ASCII tokens: any byte-offset cut-off (log truncation, buffer limits) lands
+        // inside a multi-byte character for one of these alignments
+        std::iter::repeat('é').take(3000).collect::<String>(),
+        format!("x{}", std::iter::repeat('é').take(3000).collect::<String>()),
+        std::iter::repeat('€').take(2000).collect::<String>(),
     ]
 }
 
@@ -263,9 +268,59 @@ pub fn make_world(kind: Kind) -> W {
     W { steps: 0, node, loops, sess, probe, probe_n: 0 }
 }
 
+/// value / key classes: the crash oracle can only depend on these, not on the exact strings
+fn class_of_value(v: &str) -> String {
+    if v.is_empty() {
+        "empty".into()
+    } else if let Ok(n) = v.parse::<i64>() {
+        if n.abs() >= (i32::MAX as i64) - 2 { "num-edge".into() } else { "num".into() }
+    } else if v.len() > 1000 {
+        "long".into()
+    } else if !v.is_ascii() {
+        "utf8".into()
+    } else {
+        "text".into()
+    }
+}
+
+fn class_of_key(k: &str) -> String {
+    let base = if k.starts_with("$$") {
+        "secure"
+    } else if k.starts_with('$') {
+        "system"
+    } else if k.is_empty() {
+        "emptykey"
+    } else if k.len() > 1000 {
+        "longkey"
+    } else {
+        "plain"
+    };
+    // the keys the templates address by name keep their identity
+    if ["k", "n", "c", "$$token", "$connections", "probe"].contains(&k) || k.starts_with("$$user_") || k.starts_with("$$permission_") {
+        k.to_string()
+    } else {
+        base.to_string()
+    }
+}
+
 pub fn state_key(w: &W) -> String {
-    let mut all = dump_all(&w.node.dbs);
-    rank_opp_ids(&mut all);
+    let all_full = dump_all(&w.node.dbs);
+    // coarse canonical form: per database the multiset of (key class, value class, version class, state)
+    let all: std::collections::BTreeMap<String, std::collections::BTreeSet<(String, String, String, u8)>> = all_full
+        .iter()
+        .map(|(db, d)| {
+            let dbn = if ["$admin", "t", "ar"].contains(&db.as_str()) { db.clone() } else { format!("other:{}", class_of_key(db)) };
+            (
+                dbn,
+                d.iter()
+                    .map(|(k, v)| {
+                        let ver = if v.version >= i32::MAX - 2 { "edge" } else if v.version < 0 { "neg" } else { "ok" };
+                        (class_of_key(k), class_of_value(&v.value), ver.to_string(), v.state)
+                    })
+                    .collect(),
+            )
+        })
+        .collect();
     let members: Vec<String> = {
         match w.node.dbs.cluster_state.lock() {
             Ok(cs) => match cs.members.lock() {
@@ -281,7 +336,7 @@ pub fn state_key(w: &W) -> String {
     };
     let snapq = w.node.dbs.to_snapshot.read().map(|g| g.clone()).unwrap_or_default();
     let pending = w.node.dbs.pending_opps.read().map(|p| p.len()).unwrap_or(0);
-    let watchers: Vec<_> = all.keys().map(|n| with_db(&w.node.dbs, n, |db| watcher_counts(db))).collect();
+    let watchers: Vec<_> = all_full.keys().map(|n| with_db(&w.node.dbs, n, |db| watcher_counts(db).into_iter().map(|(k, c)| (class_of_key(&k), c)).collect::<std::collections::BTreeSet<_>>())).collect();
     let cm = w.sess.client.cluster_member.lock().map(|m| m.as_ref().map(|x| format!("{}:{}", x.name, x.role))).unwrap_or(None);
     format!(
         "{:?}|{:?}|{:?}|{}|{}|{:?}|{:?}|{:?}|{}|{:?}|{}",
@@ -415,6 +470,7 @@ pub fn run(run: &mut Run) {
         }
         run.cov(&format!("session_{:?}", kind), serde_json::json!({"states": res.states, "transitions": res.transitions, "depth_completed": res.depth_completed, "exhausted": res.exhausted_bound, "cap": res.cap_hit}));
     }
+    run.assume("state merging uses value/key classes (empty, numeric, numeric at the i32 edge, text, non-ASCII, long; named template keys keep their identity), which is what a crash can depend on; exact strings are not part of the key");
     run.assume("overflow verdicts are for builds with overflow checks (the test profile); the 'seeded random byte strings' tail of the quantifier is sampling and is not used");
     run.assume("link threads created by `join` are parked by the harness (hook H7), so membership is deterministic");
 }
